@@ -184,7 +184,7 @@ fn one_history(run: &Run, case: u64) {
 
 pub fn run(tier: Tier, replay: Option<Value>) -> i32 {
     let run = Run::new("C02", "exploration", tier, replay);
-    let n = tier.pick(200, 3000);
+    let n = tier.pick(200, 8000);
     run.par_cases(n, super::threads(), |case| one_history(&run, case));
     run.finish(
         "random histories (6-25 steps) over {1-4 tree mutations (add/modify/touch/chmod/remove/rename/file<->dir/symlinks/resize across the small-file cap/content reappearing from removed files) with strictly increasing logical-clock mtimes; backup with random (hunk, block, cap); backup killed before a uniformly chosen storage operation of its measured trace; delete of a random subset (incl. dry run); gc}. After every step every version that has a tail and was not deleted is restored by id and via LatestClosed and compared with the snapshot of the source taken when its backup ran; refused and dry-run deletes must leave the archive byte-identical. Non-trivial = history reached >= 2 complete versions and >= 3 step kinds; distinct by step descriptions.",
